@@ -172,3 +172,33 @@ CHECK_DEADLOCK FALSE
 	res := c.runMC(TLCOpts{Module: "DenseImpl", Cfg: cfg, Purpose: "DenseImpl " + purpose, Constants: fmt.Sprintf("kinds=%s overhead=%d keys=%s maxTotal=%d", kinds, overhead, keys, maxTotal)})
 	fmt.Printf("  [MC DenseImpl %s] %d distinct states: I_NoPanic I_Refines I_Structure I_KeyAtRank hold %.0fs\n", purpose, res.Distinct, time.Since(c.phaseStart).Seconds())
 }
+
+// runPagedImplMC model-checks the implementation-shaped model of the paginated store (PagedImpl.tla):
+// refinement of the exact map under every capacity growth and interleaving of reads/compactions.
+func (c *Ctx) runPagedImplMC() {
+	if !c.phase("MC PagedImpl") {
+		return
+	}
+	type conf struct {
+		slots, keys string
+		maxTotal    int
+	}
+	confs := []conf{{"{1}", "PKeys3", c.pick(10, 12)}, {"{1, 2}", "PKeys3", c.pick(2, 3)}}
+	for _, cf := range confs {
+		cfg := fmt.Sprintf(`SPECIFICATION Spec
+CONSTANTS
+  PageLen = 2
+  PageGrow = 2
+  Unit = 2
+  Slots = %s
+  Keys <- %s
+  WeightsW = {1, 2}
+  MaxTotal = %d
+CONSTRAINT BoundedP
+INVARIANTS P_Refines P_Structure
+CHECK_DEADLOCK FALSE
+`, cf.slots, cf.keys, cf.maxTotal)
+		res := c.runMC(TLCOpts{Module: "PagedImpl", Cfg: cfg, Purpose: "PagedImpl slots=" + cf.slots, Constants: fmt.Sprintf("pageLen=2 pageGrow=2 unit=2 slots=%s keys=%s maxTotal=%d", cf.slots, cf.keys, cf.maxTotal)})
+		fmt.Printf("  [MC PagedImpl slots=%s] %d distinct states: P_Refines P_Structure hold %.0fs\n", cf.slots, res.Distinct, time.Since(c.phaseStart).Seconds())
+	}
+}
